@@ -187,6 +187,18 @@ def r02_1(ctx):
                 return False
 
             chunk_fed = bool(defs_) and all(from_next(kind_, payload_) for _, _, kind_, payload_ in defs_)
+        if not chunk_fed and ctr.origin and ctr.origin[0] == "arg" and ctr.origin_node[0]:
+            # the parse sits in a closure that an iterator adaptor runs once per item of the chunker
+            # (`Chunker::new(..).try_for_each(|doc| ..)`): the closure's parameter is a chunker document
+            caller_id, cbb, callee_id = ctr.origin_node[0][-1]
+            ppath = ctr.origin_node[0][:-1]
+            caller = sup.body_of((ppath, 0)) if ppath else sup.root
+            ct_ = caller.blocks[cbb]["term"]
+            cf_ = fn_of(ct_) or {}
+            ch_adt = (common.chunker(ctx.facts)["adt"] or "").rsplit("::", 1)[-1]
+            callee_b = lib.by_id.get(callee_id)
+            if ct_["k"] == "call" and cf_.get("trait") == "std::iter::Iterator" and cf_.get("name") in ("try_for_each", "for_each", "try_fold", "fold", "map", "filter_map", "find_map", "all", "any") and ch_adt and ch_adt in (cf_.get("self_ty") or "") and callee_b is not None and callee_b.raw["def_kind"] == "Closure":
+                chunk_fed = True
         whole = not chunk_fed
         if not whole:
             ctx.ob(f"site:{sup.body_of(n).name}:chunk-fed", True, sup.site(n), "parser fed by a chunker document (already re-encoded): exempt", trivial=True)
